@@ -1,7 +1,9 @@
 """C18 -- a dying worker process cannot hang the multiprocessing solver (necessary conditions)."""
 from ..rules import process
 
-EXPLANATION = "tmp"
+EXPLANATION = (
+    'Static analysis of three necessary conditions for not hanging, on both receive loops: every Process created is retained in a container, every read of the result queue is bounded in time (timeout / non-blocking), and some exit edge of the wait (raise/return/break) depends on a liveness query of the process handles. Does not decide the bound on the time.'
+)
 
 
 def check(ctx, prog):
